@@ -190,7 +190,7 @@ class Verifier:
         I.fkeys = {}
         for lk, ls in (getattr(C.cls, "loops", None) or {}).items():
             fk, ordinal = lk.rsplit("#", 1)
-            I.loop_specs[(fk, int(ordinal))] = dict(contract=C, inv=contract_fref(self.prog, C, ls["inv"]), temps=ls.get("temps", ()))
+            I.loop_specs[(fk, int(ordinal))] = dict(contract=C, inv=contract_fref(self.prog, C, ls["inv"]), temps=ls.get("temps", ()), reads=ls.get("reads", ()))
         built = C.build(G)
         args, kwargs, ghost = built.get("args", []), built.get("kwargs", {}), built.get("ghost", {})
         req = contract_fref(self.prog, C, "requires")
